@@ -16,7 +16,7 @@ sys.path.insert(0, os.path.dirname(os.path.abspath(__file__)))
 import dlib  # noqa: E402
 import c15_enc as enc  # noqa: E402
 
-from traits.api import Any, HasTraits, List  # noqa: E402
+from traits.api import Any, HasTraits, Instance, Int, List  # noqa: E402
 from traits.observation import expression, parsing  # noqa: E402
 from traits.observation._anytrait_filter import anytrait_filter  # noqa: E402
 from traits.observation._dict_item_observer import DictItemObserver  # noqa: E402
@@ -239,7 +239,53 @@ def removal_ok(s1, s2, graphs1):
     return True
 
 
+LEAF_NAMES = ["t_true", "t_false", "t_zero", "t_empty", "t_tuple", "t_none", "t_absent", "t_other"]
+
+
+class Leaf(HasTraits):
+    t_true = Int(tag=True)
+    t_false = Int(tag=False)
+    t_zero = Int(tag=0)
+    t_empty = Int(tag="")
+    t_tuple = Int(tag=())
+    t_none = Int(tag=None)
+    t_absent = Int()
+    t_other = Int(other=1)
+
+
+class Root(Leaf):
+    child = Instance(Leaf)
+
+
+def run_hook(c):
+    """Register a recording handler by the text on Root(child=Leaf()), change every trait of the root and of the
+    child once, then reassign child: which changes were reported (16*level + trait index)."""
+    root = Root(child=Leaf())
+    child = root.child
+    fired = []
+
+    def handler(event):
+        level = 0 if event.object is root else 1 if event.object is child else 9
+        idx = 8 if event.name == "child" else LEAF_NAMES.index(event.name) if event.name in LEAF_NAMES else 15
+        fired.append(16 * level + idx)
+
+    try:
+        root.observe(handler, c["s"])
+    except BaseException as e:   # noqa: B902
+        return {"registered": False, "fired": [], "exc": type(e).__name__}
+    try:
+        for obj in (root, child):
+            for n in LEAF_NAMES:
+                setattr(obj, n, getattr(obj, n) + 1)
+        root.child = Leaf()
+    except BaseException as e:   # noqa: B902
+        return {"registered": True, "fired": sorted(set(fired)) + [999], "exc": type(e).__name__}
+    return {"registered": True, "fired": sorted(set(fired))}
+
+
 def run_case(c):
+    if c["kind"] == "hook":
+        return run_hook(c)
     if c["kind"] == "expr":
         return run_expr(c)
     if c["kind"] == "single":
